@@ -235,6 +235,35 @@ def main():
         if numpy.abs(pops[0] - numpy.asarray(p0, dtype=float)).max() != 0:
             ck.violation("initial-value-stored", "propagate", sample, rp)
 
+        # the rate matrix object is edited after the first propagation:
+        # the same propagator then follows the CURRENT rates
+        if s % 3 == 0 and N >= 2:
+            i0, j0 = 0, 1
+            newv = float(K[i0, j0]) * 2.5 + 0.3 * kmax
+            rm.set_rate((i0, j0), newv)
+            K2 = numpy.array(rm.data)
+            pops2 = numpy.array(prop.propagate(p0in))
+            g2 = float(numpy.abs(K2).sum(axis=0).max())
+            T2 = sum(numpy.linalg.matrix_power(K2 * dt, l) /
+                     math.factorial(l) for l in range(L + 1))
+            growth2, P2 = 1.0, numpy.eye(N)
+            for k in range(Nt):
+                P2 = T2.dot(P2)
+                growth2 = max(growth2, numpy.abs(P2).sum(axis=0).max())
+            bound2 = Nt * (g2 * dt) ** (L + 1) / math.factorial(L + 1) * \
+                math.exp(g2 * dt) * growth2
+            exact2 = numpy.array([scipy.linalg.expm(K2 * t).dot(
+                numpy.asarray(p0, dtype=float)) for t in ta.data])
+            err2 = float(numpy.abs(pops2 - exact2).sum(axis=1).max())
+            ck.case("matches-expm-after-edit", ("num", s),
+                    sample=dict(N=N, err=err2, bound=bound2))
+            if err2 > 10 * bound2 + 1e-12:
+                ck.violation("matches-expm", "propagate-after-set_rate",
+                             dict(N=N, err=err2, bound=bound2),
+                             dict(kind="propagate-after-edit", K=K.tolist(),
+                                  K2=K2.tolist(), dt=dt, Nt=Nt))
+            K = K2
+            g = g2
         # propagation matrix on compatible sub-axes
         for regime in ("same-start", "commensurate", "incommensurate"):
             mult = int(rng.randint(1, 4))
